@@ -58,6 +58,8 @@ pub struct HistoryParams {
     pub external_sender: bool,
     /// handshake messages always public (an outside observer must be able to follow)
     pub force_public_handshake: bool,
+    /// one in five by-reference Adds carries an expired key package that every committer has to drop
+    pub doomed_adds: bool,
 }
 
 impl HistoryParams {
@@ -72,6 +74,7 @@ impl HistoryParams {
             stores: vec![StoreKind::Mem],
             external_sender: false,
             force_public_handshake: false,
+            doomed_adds: true,
         }
     }
 }
@@ -103,6 +106,7 @@ pub struct HistoryStats {
     pub joins: u64,
     pub crossed_pow2: bool,
     pub skipped_ops: u64,
+    pub doomed_adds: u64,
     pub apps: u64,
     pub proposals: u64,
     pub mixed_providers: bool,
@@ -358,6 +362,26 @@ impl<'a> History<'a> {
             OP_PROPOSE_ADD => {
                 if self.notes.resumption_psk_pending || self.w.members().len() + self.notes.pending_adds.len() >= self.hp.max_members {
                     self.stats.skipped_ops += 1;
+                    return Ok(());
+                }
+                if self.hp.doomed_adds && op[2] % 5 == 0 {
+                    // An Add that every committer has to drop: the key package was issued ten days before the fake clock with a
+                    // lifetime of one day. Cached by everybody, it precedes whatever valid Adds the next commit carries.
+                    let p = self.w.new_party();
+                    let suite = self.w.cfg.suite;
+                    let q = &self.w.parties[p];
+                    let c = build_client_with_lifetime(q.crypto.clone(), q.idp.clone(), q.gstore.clone(), q.kstore.clone(), q.pstore.clone(), Default::default(), q.identity.clone(), q.signer.clone(), suite, 86400);
+                    let kp = guard(|| c.generate_key_package_message(Default::default(), Default::default(), Some(mls_rs::time::MlsTime::from(T0 - 10 * 86400)))).map_err(|e| setup_failure(prop, "generate_key_package", &e))?;
+                    let party = &mut self.w.parties[a];
+                    let ad = aad.clone();
+                    match guard(|| party.gm().propose_add(kp, ad)) {
+                        Ok(m) => {
+                            self.w.push_proposal(a, m, aad).map_err(|e| setup_failure(prop, "encode", &e))?;
+                            self.stats.proposals += 1;
+                            self.stats.doomed_adds += 1;
+                        }
+                        Err(e) => return Err(op_failure(prop, "propose_add", &e)),
+                    }
                     return Ok(());
                 }
                 let p = self.w.new_party();
